@@ -259,14 +259,9 @@ func EvalUnary(u Unary, v Val) Outcome {
 	case Length:
 		switch v.K {
 		case KStr:
-			n := len(v.S)
-			for _, r := range v.S {
-				if r >= 0x80 {
-					// byte length or character count: not settled by the statement
-					return Outcome{Vals: []Val{Int(int64(n)), Int(int64(len([]rune(v.S))))}, Reason: "non-ASCII length"}
-				}
-			}
-			return valOut(Int(int64(n)))
+			// the operator table defines the length of a string as the number of bytes of its
+			// UTF-8 encoding (not the number of characters)
+			return valOut(Int(int64(len(v.S))))
 		case KBytes:
 			return valOut(Int(int64(len(v.B))))
 		case KSet:
